@@ -66,6 +66,9 @@ TYPES = [
     ('seq-default-constructed', ('SEQ', (('h', INT, 'R', None), ('n', ('SEQOF', INT), 'D', M.freeze([1, 2])))), {'h': 1, 'n': [1, 2]}),
     ('seq-opt-seq', ('SEQ', (('h', INT, 'R', None), ('n', ('SEQ', (('a', INT, 'R', None),)), 'O', None))), {'h': 1}),
     ('int', INT, -129),
+    ('seq-default-nested', ('SEQ', (('h', INT, 'R', None),
+                                    ('n', ('SEQ', (('a', INT, 'R', None), ('inner', ('SEQ', (('x', INT, 'R', None),)), 'R', None))),
+                                     'D', M.freeze({'a': 0, 'inner': {'x': 0}})))), {'h': 5, 'n': {'a': 0, 'inner': {'x': 0}}}),
     ('seq-wc-absent', ('CON', ('WC', ('b', 'A')), SC.SEQ_OD), {'a': 1, 'c': False}),
     ('seqof-size', ('CON', ('SZ', 1, 3), ('SEQOF', INT)), [1, 2]),
 ]
@@ -153,6 +156,19 @@ def schema_nodes(spec, out=None, depth=0):
     return out
 
 
+def schema_shape(spec, depth=0):
+    """raw shape of a schema object including the schema objects (and DEFAULT values) of its components"""
+    if depth > 8 or not isinstance(spec, pybase.Asn1Item):
+        return None
+    kids = ()
+    ct = spec.__dict__.get('componentType') if isinstance(spec, pybase.ConstructedAsn1Type) else None
+    if isinstance(ct, pybase.Asn1Item):
+        kids = (schema_shape(ct, depth + 1),)
+    elif ct is not None and hasattr(ct, 'namedTypes'):
+        kids = tuple(schema_shape(nt.asn1Object, depth + 1) for nt in ct.namedTypes)
+    return (B.shape(spec), kids)
+
+
 def mutate_result(obj):
     """mutate a decoded result through a public mutator (whatever applies)"""
     if isinstance(obj, univ.SequenceOfAndSetOfBase):
@@ -162,11 +178,29 @@ def mutate_result(obj):
         obj.clear()
         return 'clear'
     if isinstance(obj, univ.SequenceAndSetBase):
-        # mutate the first constructed component in place if any, else clear
+        # the way an application edits a decoded result: read a constructed component (which instantiates an
+        # absent DEFAULT/OPTIONAL one) and change something inside it, as deep as it goes
         for i in range(len(obj.componentType)):
-            c = obj.getComponentByPosition(i, default=None, instantiate=False)
-            if isinstance(c, pybase.ConstructedAsn1Type):
-                c.clear()
+            c = obj.getComponentByPosition(i)
+            if isinstance(c, pybase.ConstructedAsn1Type) and not isinstance(c, univ.Choice):
+                target = c
+                while isinstance(target, univ.SequenceAndSetBase) and len(target.componentType):
+                    inner = None
+                    for j in range(len(target.componentType)):
+                        cj = target.getComponentByPosition(j)
+                        if isinstance(cj, univ.SequenceAndSetBase):
+                            inner = cj
+                            break
+                    if inner is None:
+                        break
+                    target = inner
+                if isinstance(target, univ.SequenceAndSetBase) and len(target.componentType):
+                    for j in range(len(target.componentType)):
+                        cj = target.getComponentByPosition(j)
+                        if isinstance(cj, univ.Integer):
+                            target.setComponentByPosition(j, 77)
+                            return 'set-inner-int'
+                target.clear()
                 return 'clear-inner'
         obj.clear()
         return 'clear'
@@ -184,6 +218,11 @@ class Scenario(object):
         spec = B.to_spec(self.T, cache=False)
         val = B.build(self.T, self.v, spec)
         return spec, val
+
+    def solo_all(self):
+        for call in self.calls:
+            if call != 'mutate-last':
+                self.solo(call)
 
     def solo(self, call):
         """outcome of the call run alone on fresh objects (normalised)"""
@@ -231,12 +270,61 @@ class Scenario(object):
         raise ValueError(call)
 
 
+class OpenScenario(Scenario):
+    """SEQUENCE { id INTEGER, blob ANY DEFINED BY id } decoded with open type resolution; outcomes are
+    compared as raw shapes because the resolved field is not an ANY any more."""
+
+    def __init__(self, name, govval, innerT, innerv, form):
+        from pyasn1.type import namedtype, opentype
+        self.name = name
+        self.T = ('SEQ', (('id', INT, 'R', None), ('blob', ANY, 'R', None)))
+        self.innerT, self.innerv = innerT, innerv
+        self.v = {'id': govval, 'blob': F.encode(form, innerT, innerv)}
+        self.bytes = {'dec-ber': F.encode('indef' if form == 'indef' else 'der', self.T, self.v), 'dec-cer': None,
+                      'dec-der': M.der(self.T, {'id': govval, 'blob': M.der(innerT, innerv)})}
+        self.calls = ['dec-ber', 'dec-der', 'enc-der', 'enc-ber-indef', 'mutate-last', 'read-print']
+        self._solo = {}
+
+    def fresh(self):
+        from pyasn1.type import namedtype, opentype
+        tmap = {1: univ.Integer(), 2: univ.OctetString(), 3: B.to_spec(('SEQOF', INT), cache=False), 4: univ.Boolean()}
+        spec = univ.Sequence(componentType=namedtype.NamedTypes(
+            namedtype.NamedType('id', univ.Integer()),
+            namedtype.NamedType('blob', univ.Any(), openType=opentype.OpenType('id', tmap))))
+        val = spec.clone()
+        val['id'] = self.v['id']
+        val['blob'] = B.build(self.innerT, self.innerv, B.to_spec(self.innerT, cache=False))
+        return spec, val
+
+    def norm(self, out, spec):
+        if out[0] == 'ok' and isinstance(out[1], tuple) and len(out[1]) == 2 and isinstance(out[1][0], pybase.Asn1Item):
+            return ('ok', repr(B.shape(out[1][0])), bytes(out[1][1]))
+        if out[0] == 'ok':
+            r = out[1]
+            return ('ok', None if not isinstance(r, (bytes, str, bool, int)) else r)
+        return out
+
+    def do(self, call, spec, val, results):
+        if call in DEC:
+            out = outcome(lambda: DEC[call](self.bytes[call], asn1Spec=spec, decodeOpenTypes=True))
+            return out, (out[1][0] if out[0] == 'ok' else None)
+        return Scenario.do(self, call, spec, val, results)
+
+
+OPEN_SCENARIOS = [
+    lambda: OpenScenario('open-int', 1, INT, 12, 'der'),
+    lambda: OpenScenario('open-octs', 2, OCTS, b'quick', 'der'),
+    lambda: OpenScenario('open-seqof-indef', 3, ('SEQOF', INT), [1, 2], 'indef'),
+    lambda: OpenScenario('open-unmapped', 9, INT, 5, 'der'),
+]
+
+
 def part_a(tier, i, n, seed, R):
     maxlen = 3 if tier == 'quick' else 4
     idx = -1
     seen_states = set()
-    for name, T, v in TYPES:
-        sc = Scenario(name, T, v)
+    scenarios_a = [Scenario(name, T, v) for name, T, v in TYPES] + [mk() for mk in OPEN_SCENARIOS]
+    for sc in scenarios_a:
         for L in range(1, maxlen + 1):
             for seq in itertools.product(sc.calls, repeat=L):
                 # pruning that keeps every distinct pair order: skip sequences with the same call 3x in a row
@@ -247,14 +335,25 @@ def part_a(tier, i, n, seed, R):
                 idx += 1
                 if (idx + seed) % n != i:
                     continue
+                sc.solo_all()          # isolated outcomes are taken with logging off
                 guarded(R, lambda: run_history(sc, seq, R, idx, seen_states), {'part': 'A', 'type': sc.name, 'T': sc.T, 'v': sc.v, 'history': list(seq)}, {'A', 'type:' + sc.name}, idx)
+                if L <= (2 if tier == 'quick' else 3):
+                    # the same history with debug logging switched on must give the same outcomes
+                    pydebug.setLogger(pydebug.Debug('all', printer=lambda msg: None))
+                    try:
+                        guarded(R, lambda: run_history(sc, seq, R, idx, seen_states, debug=True),
+                                {'part': 'A', 'type': sc.name, 'T': sc.T, 'v': sc.v, 'history': list(seq), 'debug': True},
+                                {'A', 'type:' + sc.name, 'debug'}, idx)
+                    finally:
+                        pydebug.setLogger(None)
+                        del pydebug.scope._list[:]
     R.extra['states'] += len(seen_states)
 
 
-def run_history(sc, seq, R, idx, seen_states):
+def run_history(sc, seq, R, idx, seen_states, debug=False):
     spec, val = sc.fresh()
     fresh_equal = B.build(sc.T, sc.v, B.to_spec(sc.T, cache=False))
-    spec_shape0 = B.shape(spec)
+    spec_shape0 = schema_shape(spec)
     snap0 = value_snapshot(val, sc.T, spec, fresh_equal)
     results = []
     res_snaps = []
@@ -268,6 +367,9 @@ def run_history(sc, seq, R, idx, seen_states):
         got = sc.norm(raw, spec)
         feats = {'A', 'type:' + sc.name, 'call:' + call, 'step:%d' % step} | set('prev:' + c for c in seq[:step])
         rec = {'part': 'A', 'type': sc.name, 'T': sc.T, 'v': sc.v, 'history': list(seq[:step + 1])}
+        if debug:
+            feats.add('debug')
+            rec['debug'] = True
         if raw[0] == 'leak':
             pass
         if call != 'mutate-last':
@@ -276,7 +378,7 @@ def run_history(sc, seq, R, idx, seen_states):
                 R.violation('history.outcome', rec, 'after %s: %s -> %s' % (list(seq[:step]), call, summarize(got)),
                             'as when run alone: %s' % summarize(want), 'codec', feats, idx)
         # shared schema untouched (raw shape; _tagMap memo excluded by shape())
-        sh = B.shape(spec)
+        sh = schema_shape(spec)
         if sh != spec_shape0:
             R.violation('schema.changed', rec, 'schema object changed by %s (history %s)' % (call, list(seq[:step])),
                         'guiding type object unchanged', 'codec', feats, idx)
